@@ -381,7 +381,10 @@ impl<T: Flt> Runner<T> {
                     }
                 } else {
                     let orig = self.cfg.ratio;
-                    let v = if *relative_api { *rel } else { orig * *rel };
+                    // "in range" is literal: the absolute value is kept inside [orig/max, orig*max]
+                    // (orig * (1/max) can round to one ulp below orig / max)
+                    let m = self.cfg.max_rel;
+                    let v = if *relative_api { *rel } else { (orig * *rel).clamp(orig / m, orig * m) };
                     rec.ctl_bits = v.to_bits();
                     let rel_api = *relative_api;
                     let ramp = *ramp;
